@@ -214,7 +214,11 @@ func checkHostile(c *harness.Ctx, w *World, call *Call, where string) bool {
 		}
 		// independent well-formedness checks: a body that encoding/json rejects, or a path key / query
 		// with unbalanced parentheses, is malformed whatever the library thinks
-		if e.Status < 400 || len(call.Inv) > 0 {
+		if e.Status >= 300 && e.Status < 400 && len(call.Inv) == 0 {
+			// a redirect without any invocation: net/http's ServeMux canonicalises paths ("//", "/./") by redirecting
+			// before the library ever sees the request; nothing of go-restli's was served
+			c.Probe("damaged-request-redirected-by-the-mux")
+		} else if e.Status < 400 || len(call.Inv) > 0 {
 			_, uri, _, body := parseWire(e.ReqBytes)
 			if kind == "damage-body" && len(body) > 0 && !structurallyValidJSON(body) && takesBody(call) {
 				c.Fail("C04", "malformed-body-accepted", "malformed-body-accepted:"+methodClass(call, w), "%s: the request body is not valid JSON (%s) yet it was served: status %d, invocations %d; body %q", where, detail, e.Status, len(call.Inv), clip(body, 300))
